@@ -378,6 +378,12 @@ pub fn session<E: SimEnv>(cfg: &SessionCfg, cs: &mut EnvCensus, out: &mut Sessio
                     }
                 }
                 check_cached_l2(&env, step, "after a submission", &batch)?;
+                let v = &b.assets[ins.asset()].book.views;
+                if v.bid_vol > 0 || v.ask_vol > 0 {
+                    let mut h = Fnv::new();
+                    h.bytes(format!("{:?}{:?}", ins, v).as_bytes());
+                    out.distinct_keys.push(h.finish());
+                }
             }
         }
         if let (Some(p), true) = (env.pending(), on(E_STEP) || on(E_INVIS)) {
